@@ -315,3 +315,48 @@ Proof.
       exists (AOp o :: h), s', (OSkip :: obs), hot'. split; [now apply bx_skip|]. split; [|split; assumption].
       cbn [prun pstep]. rewrite Ea. rewrite prun_acc, Hr. reflexivity.
 Qed.
+
+Lemma pinit_psx2 P w s0 : c_faults (pc_reader P) = [] -> c_fix_moveout (pc_reader P) = true -> wf_fs w ->
+  fisdir (c_root (pc_reader P)) (w_fs w) = true -> pinit P w = Some s0 -> PSx2 P s0 None /\ p_world s0 = w /\ p_out s0 = [].
+Proof.
+  intros Hf Hmo W Hroot Hi. destruct (pinit_psx P w s0 Hf Hmo W Hroot Hi) as (S & Ew & Eo). split; [now apply PSx_PSx2 | now split].
+Qed.
+
+Theorem blocks_replay_x2 P t0 : let C := pc_reader P in
+  c_faults C = [] -> c_fix_moveout C = true -> c_mask C = WATCHDOG_ALL -> pc_filter P = None ->
+  forall ops s hot, PSx2 P s hot -> ops_x12 C (p_world s) hot ops ->
+  TInv (c_recursive C) (c_root C) (replay (c_recursive C) (c_root C) t0 (p_out s)) (p_world s) ->
+  exists h s' obs hot', block_hist_x P s ops h /\ prun P s h [] = Done (s', obs) /\ PSx2 P s' hot' /\
+    TInv (c_recursive C) (c_root C) (replay (c_recursive C) (c_root C) t0 (p_out s')) (p_world s').
+Proof.
+  intros C Hf Hmo Hm HF. induction ops as [|o ops IH]; intros s hot S Hc T; cbn [ops_x12] in Hc.
+  - exists [], s, [], hot. split; [constructor|]. split; [reflexivity|]. split; assumption.
+  - destruct (apply_op (p_world s) o) as [w'|] eqn:Ea.
+    + destruct Hc as [Hs Hc].
+      destruct (block_x2 P s hot o w' Hf Hmo Hm HF S (step_ok12_ok C _ _ _ Hs) Ea) as (nit & s1 & obs1 & raws & Hrun & S1 & E1 & Hout & Hrd).
+      destruct (gs2_replay_step C (pc_full P) Hf Hmo Hm (p_world s) (p_k s) (p_r s) hot o w' _ (px2_sync _ _ _ S) Hs Ea T)
+        as (r' & k' & raws' & Hrd' & _ & _ & T').
+      fold C in Hrd. rewrite Hrd in Hrd'. injection Hrd' as _ _ <-.
+      assert (T1 : TInv (c_recursive C) (c_root C) (replay (c_recursive C) (c_root C) t0 (p_out s1)) (p_world s1)).
+      { rewrite E1, Hout. unfold replay in *. now rewrite fold_left_app. }
+      rewrite <- E1 in Hc. destruct (IH s1 _ S1 Hc T1) as (h & s' & obs & hot' & Hh & Hr & S' & T2).
+      exists (tie_history P s o nit ++ h), s', (obs1 ++ obs), hot'. split; [eapply bx_step; eassumption|].
+      split; [|split; assumption]. rewrite prun_app, Hrun, prun_acc, Hr. reflexivity.
+    + destruct (IH s hot S Hc T) as (h & s' & obs & hot' & Hh & Hr & S' & T').
+      exists (AOp o :: h), s', (OSkip :: obs), hot'. split; [now apply bx_skip|]. split; [|split; assumption].
+      cbn [prun pstep]. rewrite Ea. rewrite prun_acc, Hr. reflexivity.
+Qed.
+
+Theorem replay_pipeline_from_start_x2 P ops w s0 : let C := pc_reader P in
+  c_faults C = [] -> c_fix_moveout C = true -> c_mask C = WATCHDOG_ALL -> pc_filter P = None -> wf_fs w ->
+  fisdir (c_root C) (w_fs w) = true -> pinit P w = Some s0 -> ops_x12 C w None ops ->
+  exists h s' obs hot', block_hist_x P s0 ops h /\ prun P s0 h [] = Done (s', obs) /\ PSx2 P s' hot' /\
+    forall x, alookup beqb x (replay (c_recursive C) (c_root C) (tree_of (c_recursive C) (c_root C) w) (p_out s'))
+            = alookup beqb x (tree_of (c_recursive C) (c_root C) (p_world s')).
+Proof.
+  intros C Hf Hmo Hm HF W Hroot Hi Hc. destruct (pinit_psx2 P w s0 Hf Hmo W Hroot Hi) as (S0 & Ew & Eo).
+  rewrite <- Ew in Hc.
+  destruct (blocks_replay_x2 P (tree_of (c_recursive C) (c_root C) w) Hf Hmo Hm HF ops s0 None S0 Hc) as (h & s' & obs & hot' & Hh & Hr & S' & T).
+  { rewrite Eo, Ew. cbn. now apply TInv_init. }
+  exists h, s', obs, hot'. split; [exact Hh|]. split; [exact Hr|]. split; [exact S'|]. now apply TInv_tree_eq.
+Qed.
